@@ -53,6 +53,9 @@ CONSTANTS MaxInst,      \* instances are 1..MaxInst; how many run is chosen in I
           ResetOnSleep, \* TRUE as coded: overdue := 0 before the timer is armed; FALSE keeps the previous token's value (negative control)
           LazyAt,       \* pcs at which a lazy tick may be taken (all of them in the exhaustive configurations; {"cmp"} for
                         \* the descheduling scripts, whose delay the harness can inject between Next() and the clock reading)
+          RereadAll,    \* TRUE as coded: the clock is read for EVERY token the cached reading proves due; FALSE (negative control,
+                        \* "one reading per burst"): only when the token's instant is later than the previous such token's, so the
+                        \* tokens of an equal-time burst (once) are judged against the reading taken for the first of them
           DrawAdvances, \* TRUE: Next() of the shared schedule hands every token to one caller (C02); FALSE (negative control):
                         \* two instances calling Next() at the same time get the same token
           MinWait,      \* scenario pacing (min_waiting_time, ticks; 0 = ordinary gun): a shot that is served faster blocks
@@ -77,10 +80,11 @@ VARIABLES now, slack, disc, ninst,
           lz,       \* ghost (only when Record): [instance -> lazy ticks spent at "cmp" for its current token]
           want,     \* script generation only: [instance -> lazy ticks to spend at "cmp" for its current token]
           startAt,  \* [instance -> instant at which the pool starts it]
+          lastNext, \* negative control only (RereadAll = FALSE): [instance -> instant of the last token for which the clock was re-read]
           finishSeen \* the shared schedule's callbackOnFinish has fired (Left() = 0 or Next() !ok seen): no further starts
 
 vars == <<now, slack, disc, ninst, k, nextTok, lastTok, pc, tok, tokk, lastNow, overdue, waitFor, deadline,
-          tnext, last, nfired, ndisc, hist, lz, want, startAt, finishSeen>>
+          tnext, last, nfired, ndisc, hist, lz, want, startAt, finishSeen, lastNext>>
 
 Insts == 1..MaxInst
 Null  == [d |-> "none"]
@@ -115,7 +119,8 @@ RecIff(r, mx) == (r.b - r.tok >= mx) <=> (r.d = "discard")
 RecPaced(r, mw) == r.d = "fire" /\ r.pf >= 0 => r.b - r.pf >= mw
 
 \* configuration default (cli.readConfig): key absent => on
-DiscardDefault(key) == IF key = "absent" THEN TRUE ELSE key = "true"
+\* (a key written without a value - YAML null - counts as not set), whatever channel the configuration came through
+DiscardDefault(key) == IF key \in {"absent", "null"} THEN TRUE ELSE key = "true"
 
 -----------------------------------------------------------------------------
 Init ==
@@ -126,6 +131,7 @@ Init ==
     /\ pc = [i \in Insts |-> IF i <= ninst THEN "idle" ELSE "done"]
     /\ startAt \in {f \in [Insts -> StartDelays \cup {0}] : f[1] = 0 /\ \A i \in Insts : i > ninst => f[i] = 0}
     /\ finishSeen = FALSE
+    /\ lastNext = [i \in Insts |-> -1]
     /\ tok = [i \in Insts |-> 0] /\ tokk = [i \in Insts |-> 0]
     /\ lastNow = [i \in Insts |-> -1]        \* the zero time.Time: before every token
     /\ overdue = [i \in Insts |-> 0]
@@ -154,20 +160,20 @@ Tick ==
     /\ slack' = IF AllBlocked THEN slack ELSE slack + 1
     /\ lz' = IF Record /\ ~AllBlocked THEN [i \in Insts |-> IF pc[i] = "cmp" THEN lz[i] + 1 ELSE lz[i]] ELSE lz
     /\ UNCHANGED <<disc, ninst, k, nextTok, lastTok, pc, tok, tokk, lastNow, overdue, waitFor, deadline,
-                   tnext, last, nfired, ndisc, hist, want, startAt, finishSeen>>
+                   tnext, last, nfired, ndisc, hist, want, startAt, finishSeen, lastNext>>
 
 \* instancePool.startInstances: the startup schedule's token for instance i is due and the start context is alive
 Begin(i) ==
     /\ pc[i] = "idle" /\ now >= startAt[i] /\ ~finishSeen
     /\ pc' = [pc EXCEPT ![i] = "loop"]
     /\ UNCHANGED <<now, slack, disc, ninst, k, nextTok, lastTok, tok, tokk, lastNow, overdue, waitFor, deadline,
-                   tnext, last, nfired, ndisc, hist, lz, want, startAt, finishSeen>>
+                   tnext, last, nfired, ndisc, hist, lz, want, startAt, finishSeen, lastNext>>
 \* the shared schedule finished first: cancelStart(), the instance is never created
 CancelStart(i) ==
     /\ pc[i] = "idle" /\ finishSeen
     /\ pc' = [pc EXCEPT ![i] = "done"]
     /\ UNCHANGED <<now, slack, disc, ninst, k, nextTok, lastTok, tok, tokk, lastNow, overdue, waitFor, deadline,
-                   tnext, last, nfired, ndisc, hist, lz, want, startAt, finishSeen>>
+                   tnext, last, nfired, ndisc, hist, lz, want, startAt, finishSeen, lastNext>>
 
 \* instance.Run: for !waiter.IsFinished(ctx) { provider.Acquire ...
 Loop(i) ==
@@ -175,7 +181,7 @@ Loop(i) ==
     /\ pc' = [pc EXCEPT ![i] = IF k >= NTok THEN "done" ELSE "next"]
     /\ finishSeen' = (finishSeen \/ k >= NTok)          \* Left() == 0: callbackOnFinish fires (instance start is cancelled)
     /\ UNCHANGED <<now, slack, disc, ninst, k, nextTok, lastTok, tok, tokk, lastNow, overdue, waitFor, deadline,
-                   tnext, last, nfired, ndisc, hist, lz, want, startAt>>
+                   tnext, last, nfired, ndisc, hist, lz, want, startAt, lastNext>>
 
 \* Waiter.Wait: next, ok := w.sched.Next()
 NextTok(i) ==
@@ -195,7 +201,7 @@ NextTok(i) ==
     /\ lz' = [lz EXCEPT ![i] = 0]
     /\ IF k < NTok THEN \E w \in LazyLens : want' = [want EXCEPT ![i] = w] ELSE want' = want
     /\ finishSeen' = (finishSeen \/ k >= NTok)          \* Next() returned !ok: callbackOnFinish fires
-    /\ UNCHANGED <<now, slack, disc, ninst, lastNow, waitFor, deadline, last, nfired, ndisc, hist, startAt>>
+    /\ UNCHANGED <<now, slack, disc, ninst, lastNow, waitFor, deadline, last, nfired, ndisc, hist, startAt, lastNext>>
 
 \* the comparison against the cached reading and the single time.Now() of this Wait
 Cmp(i) ==
@@ -203,12 +209,14 @@ Cmp(i) ==
     /\ lz[i] >= want[i]
     /\ IF tok[i] <= lastNow[i]
        THEN \* cached reading says "due"
-            /\ IF Fixed
-               THEN lastNow' = [lastNow EXCEPT ![i] = now] /\ overdue' = [overdue EXCEPT ![i] = now - tok[i]]
-               ELSE lastNow' = lastNow /\ overdue' = [overdue EXCEPT ![i] = lastNow[i] - tok[i]]
+            /\ IF Fixed /\ (RereadAll \/ tok[i] > lastNext[i])
+               THEN /\ lastNow' = [lastNow EXCEPT ![i] = now] /\ overdue' = [overdue EXCEPT ![i] = now - tok[i]]
+                    /\ lastNext' = IF RereadAll THEN lastNext ELSE [lastNext EXCEPT ![i] = tok[i]]
+               ELSE lastNow' = lastNow /\ overdue' = [overdue EXCEPT ![i] = lastNow[i] - tok[i]] /\ lastNext' = lastNext
             /\ pc' = [pc EXCEPT ![i] = "decide"]
             /\ UNCHANGED waitFor
        ELSE /\ lastNow' = [lastNow EXCEPT ![i] = now]
+            /\ lastNext' = lastNext
             /\ IF tok[i] <= now
                THEN /\ overdue' = [overdue EXCEPT ![i] = now - tok[i]]
                     /\ pc' = [pc EXCEPT ![i] = "decide"]
@@ -224,14 +232,14 @@ Arm(i) ==
     /\ deadline' = [deadline EXCEPT ![i] = now + waitFor[i]]
     /\ pc' = [pc EXCEPT ![i] = "sleep"]
     /\ UNCHANGED <<now, slack, disc, ninst, k, nextTok, lastTok, tok, tokk, lastNow, overdue, waitFor,
-                   tnext, last, nfired, ndisc, hist, lz, want, startAt, finishSeen>>
+                   tnext, last, nfired, ndisc, hist, lz, want, startAt, finishSeen, lastNext>>
 
 Wake(i) ==
     /\ pc[i] = "sleep"
     /\ now >= deadline[i]
     /\ pc' = [pc EXCEPT ![i] = "decide"]
     /\ UNCHANGED <<now, slack, disc, ninst, k, nextTok, lastTok, tok, tokk, lastNow, overdue, waitFor, deadline,
-                   tnext, last, nfired, ndisc, hist, lz, want, startAt, finishSeen>>
+                   tnext, last, nfired, ndisc, hist, lz, want, startAt, finishSeen, lastNext>>
 
 IsSlowDown(i) == overdue[i] >= Thresh
 RobustHere(i) == Guard = 0 \/ now - tok[i] <= MAX - Guard \/ now - tok[i] >= MAX + Guard
@@ -260,14 +268,14 @@ Decide(i) ==
             /\ hist' = IF Record THEN Append(hist, Rec(i, "discard", 0)) ELSE hist
             /\ ndisc' = ndisc + 1 /\ nfired' = nfired
             /\ UNCHANGED deadline
-    /\ UNCHANGED <<now, slack, disc, ninst, k, nextTok, lastTok, tok, tokk, lastNow, overdue, waitFor, tnext, lz, want, startAt, finishSeen>>
+    /\ UNCHANGED <<now, slack, disc, ninst, k, nextTok, lastTok, tok, tokk, lastNow, overdue, waitFor, tnext, lz, want, startAt, finishSeen, lastNext>>
 
 ShootEnd(i) ==
     /\ pc[i] = "shooting"
     /\ now >= deadline[i]
     /\ pc' = [pc EXCEPT ![i] = "loop"]
     /\ UNCHANGED <<now, slack, disc, ninst, k, nextTok, lastTok, tok, tokk, lastNow, overdue, waitFor, deadline,
-                   tnext, last, nfired, ndisc, hist, lz, want, startAt, finishSeen>>
+                   tnext, last, nfired, ndisc, hist, lz, want, startAt, finishSeen, lastNext>>
 
 Step(i) == Begin(i) \/ CancelStart(i) \/ Loop(i) \/ NextTok(i) \/ Cmp(i) \/ Arm(i) \/ Wake(i) \/ Decide(i) \/ ShootEnd(i)
 Next == Tick \/ \E i \in Insts : Step(i)
